@@ -20,8 +20,10 @@
    waiter queues are absent because in a sequential history no blocking call is ever issued where it
    would park (the driver prints WOULDBLOCK instead, as the model does) and recv_timeout(0) pushes
    and removes its stack waiter inside one call; waker clones are waker ids; a waiter entry is
-   (future id, waker id) and the raw `*const AtomicU8` it carries is the future's [f_state] — an
-   access through it to a future that has been dropped is recorded as [bad]. *)
+   (future id, waker id) and the raw `*const AtomicU8` it carries is the future's [f_state] — a
+   successful compare_exchange through it on a future that has been dropped (a write into freed memory
+   in the real code) is recorded as [bad]; reads of such a cell are not observable by the driver and
+   are covered by the no-dangling-registration theorem instead. *)
 From Fibre Require Import Common.Base.
 
 (** * association lists keyed by N (handles, futures) *)
@@ -161,18 +163,6 @@ Fixpoint first_waiting (g : N -> option fut) (l : list (N * N)) : option (N * N)
       end
   end.
 
-(* does that scan dereference the cell of a dropped future?  (it visits entries up to and
-   including the first WAITING one) *)
-Fixpoint scan_bad (g : N -> option fut) (l : list (N * N)) : bool :=
-  match l with
-  | [] => false
-  | (f, w) :: t =>
-      match g f with
-      | Some x => if is_waiting (f_state x) then negb (f_live x) else negb (f_live x) || scan_bad g t
-      | None => true
-      end
-  end.
-
 (* VecDeque::remove(position(|w| w.state == ptr)) — first entry of that future *)
 Fixpoint remove_first (f : N) (l : list (N * N)) : list (N * N) :=
   match l with
@@ -196,22 +186,20 @@ Fixpoint set_waker (f w : N) (l : list (N * N)) : list (N * N) :=
 (* try_send_core priority 1 / try_recv_core's sender wake: first WAITING waiter -> SUCCESS_SPACE,
    removed from the queue, woken *)
 Definition wake_one_recv (s : st) : st :=
-  let s := mark_bad (scan_bad (fun f => getF f s) (arq s)) s in
   match first_waiting (fun f => getF f s) (arq s) with
   | Some (f, w) =>
       match getF f s with
-      | Some x => wake w (with_arq (remove_first f (arq s)) (setF f (set_state Success x) s))
+      | Some x => wake w (with_arq (remove_first f (arq s)) (setF f (set_state Success x) (mark_bad (negb (f_live x)) s)))
       | None => s
       end
   | None => s
   end.
 
 Definition wake_one_send (s : st) : st :=
-  let s := mark_bad (scan_bad (fun f => getF f s) (asq s)) s in
   match first_waiting (fun f => getF f s) (asq s) with
   | Some (f, w) =>
       match getF f s with
-      | Some x => wake w (with_asq (remove_first f (asq s)) (setF f (set_state Success x) s))
+      | Some x => wake w (with_asq (remove_first f (asq s)) (setF f (set_state Success x) (mark_bad (negb (f_live x)) s)))
       | None => s
       end
   | None => s
@@ -224,11 +212,10 @@ Fixpoint mark_all (new : wst) (l : list (N * N)) (s : st) : st :=
   | (f, w) :: t =>
       match getF f s with
       | Some x =>
-          let s := mark_bad (negb (f_live x)) s in
           if is_waiting (f_state x)
-          then mark_all new t (wake w (setF f (set_state new x) s))
+          then mark_all new t (wake w (setF f (set_state new x) (mark_bad (negb (f_live x)) s)))
           else mark_all new t s
-      | None => mark_all new t (mark_bad true s)
+      | None => mark_all new t s
       end
   end.
 
@@ -282,9 +269,9 @@ Definition close_rx (s : st) : option st :=
                   | (f, w) :: _ =>
                       match getF f s with
                       | Some x =>
-                          let s := mark_bad (negb (f_live x)) s in
-                          if is_waiting (f_state x) then wake w (setF f (set_state Success x) s) else s
-                      | None => mark_bad true s
+                          if is_waiting (f_state x)
+                          then wake w (setF f (set_state Success x) (mark_bad (negb (f_live x)) s)) else s
+                      | None => s
                       end
                   | [] => s
                   end).
@@ -424,12 +411,13 @@ Definition step (s0 : st) (o : op) : st * out :=
       | None => ret s RNoHandle
       end
   | Send h =>
-      (* Sender::send -> sync_impl::send_sync; issued only where it returns without parking *)
+      (* Sender::send -> sync_impl::send_sync; issued only where the public observers say it cannot
+         park: the driver prints WOULDBLOCK iff !is_closed() && is_full() *)
       match getH h s with
       | Some x =>
           if negb (h_live x) then ret s RNoHandle
           else if negb (h_tx x) || h_async x then ret s RWrongKind
-          else if negb (h_closed x) && negb (N.eqb (rc s) 0) && is_full s then ret s RWouldBlock
+          else if negb (N.eqb (rc s) 0) && is_full s then ret s RWouldBlock
           else let '(v, s) := fresh s in
                if h_closed x then ret (destroy v s) RClosed
                else match try_send_core v s with
@@ -439,13 +427,12 @@ Definition step (s0 : st) (o : op) : st * out :=
       | None => ret s RNoHandle
       end
   | Recv h =>
-      (* Receiver::recv -> recv_sync; the driver issues it only if the public observers say
-         non-empty or is_closed() *)
+      (* Receiver::recv -> recv_sync; the driver prints WOULDBLOCK iff is_empty() && !is_closed() *)
       match getH h s with
       | Some x =>
           if negb (h_live x) then ret s RNoHandle
           else if h_tx x || h_async x then ret s RWrongKind
-          else if negb (h_closed x) && N.eqb (lenq s) 0
+          else if N.eqb (lenq s) 0
                   && negb (N.eqb (sc s) 0 && match asq s with [] => true | _ => false end)
                then ret s RWouldBlock
           else if h_closed x then ret s RDisc
